@@ -57,6 +57,8 @@ pub struct H {
     bt: Mutex<HashMap<(u64, u64, i128), i64>>,
     pub record: AtomicBool,
     pub points: Mutex<Vec<(String, String, String)>>, // (name, file, thread)
+    pub fx: Mutex<Vec<(String, bool)>>, // file-system effects of the current step: (point, failure injected)
+    pub fx_on: AtomicBool,
     pub fault: Mutex<Option<FaultPlan>>,
     pub fault_hits: Mutex<HashMap<String, u64>>,
     pub injected: AtomicU64,
@@ -96,6 +98,8 @@ pub fn h() -> &'static Arc<H> {
             bt: Mutex::new(HashMap::new()),
             record: AtomicBool::new(false),
             points: Mutex::new(Vec::new()),
+            fx: Mutex::new(Vec::new()),
+            fx_on: AtomicBool::new(false),
             fault: Mutex::new(None),
             fault_hits: Mutex::new(HashMap::new()),
             injected: AtomicU64::new(0),
@@ -126,6 +130,9 @@ impl H {
     }
     pub fn reset_bt(&self) {
         self.bt.lock().unwrap().clear();
+    }
+    pub fn take_fx(&self) -> Vec<(String, bool)> {
+        std::mem::take(&mut *self.fx.lock().unwrap())
     }
     pub fn take_points(&self) -> Vec<(String, String, String)> {
         std::mem::take(&mut *self.points.lock().unwrap())
@@ -243,9 +250,15 @@ impl vh::Handler for H {
                     if *c >= plan.from && *c < plan.from + plan.burst {
                         self.injected.fetch_add(1, Ordering::SeqCst);
                         self.injected_names.lock().unwrap().push(name.to_string());
+                        if self.fx_on.load(Ordering::SeqCst) {
+                            self.fx.lock().unwrap().push((name.to_string(), true));
+                        }
                         return Err(std::io::Error::new(plan.kind, "injected by verif harness"));
                     }
                 }
+            }
+            if self.fx_on.load(Ordering::SeqCst) {
+                self.fx.lock().unwrap().push((name.to_string(), false));
             }
         } else {
             // scheduling point
